@@ -37,11 +37,11 @@ P["C09"]=dict(level="other", technique="bounded symbolic execution (inductive st
  explanation="The C07 step harness with the injectivity assumption on the (uninterpreted, hence arbitrary) hash removed: any two of the keys in play may share their 64-bit hash. Read/Write/Delete on key k must never return, report as stale or delete the entry of a different key k' (the reference model only lets a Write take over the hash slot of a colliding key, i.e. a collision costs at most a miss), and after Write the caller's key buffer is overwritten with arbitrary bytes before the post-state is compared (no reference to the caller's slice is kept). Label indexing with a reused buffer is covered in the C15 harness; the Failover background-build buffer reuse is covered by verifH_C09_FailoverBuffer.",
  bounds="as C07, ShardedMap and ShardedMapOf[int] (SyncMap is keyed by the full string, see C07); Read/Write/Delete",
  outside="keys longer than 2 bytes; real 64-byte xxhash collisions are subsumed by the arbitrary hash function but not replayed with the real hash",
- assumptions=["xxhash.Sum64 is an uninterpreted function (any hash function)","representation invariant assumed for the pre-state: at most one entry per hash slot"],
+ assumptions=["xxhash.Sum64 is an uninterpreted function (any hash function)","representation invariant assumed for the pre-state: at most one entry per hash slot","Failover side: in the *_collide compositions (two concurrent Gets on two different keys, provenance oracle of C02) every hash the code under test computes - also of concrete keys - is an uninterpreted function value, so the two keys may collide"],
  quick=dict(harnesses=["verifH_C09_ShardedMap_keyed","verifH_C09_ShardedMapOf_keyed","verifH_C09_ShardedMapOf_batch","verifH_C09_ShardedMap_ls"], jobs=4, workers=6,
-   l2=["verifL_Failover_1_env:l2","verifL_FailoverOf_1_env:l2"], l2_labels="stored under the key its Get|no key lock remains", l2_jobs=2, l2_par=16),
+   l2=["verifL_Failover_1_env:l2","verifL_FailoverOf_1_env:l2","verifL_Failover_2_collide:l2","verifL_FailoverOf_2_collide:l2"], l2_labels="stored under the key its Get|no key lock remains|a value returned with nil error|an error returned was produced|get returned", l2_jobs=2, l2_par=16),
  thorough=dict(harnesses=["verifH_C09_ShardedMap_keyed","verifH_C09_ShardedMap_batch","verifH_C09_ShardedMap_ls","verifH_C09_ShardedMapOf_keyed","verifH_C09_ShardedMapOf_batch","verifH_C09_ShardedMapOf_ls"], jobs=3, workers=5,
-   l2=["verifL_Failover_1_env:l2","verifL_FailoverOf_1_env:l2","verifL_Failover_2_env:l2","verifL_FailoverOf_2_env:l2"], l2_labels="stored under the key its Get|no key lock remains", l2_jobs=2, l2_par=16, l2_timeout=600))
+   l2=["verifL_Failover_1_env:l2","verifL_FailoverOf_1_env:l2","verifL_Failover_2_env:l2","verifL_FailoverOf_2_env:l2","verifL_Failover_2_collide:l2","verifL_FailoverOf_2_collide:l2"], l2_labels="stored under the key its Get|no key lock remains|a value returned with nil error|an error returned was produced|get returned", l2_jobs=2, l2_par=16, l2_timeout=600))
 
 P["C15"]=dict(level="other",
  explanation="Real NewInvalidationIndex/AddCache/AddLabels/AddInvalidationLabels/InvalidateByLabels/invalidateByLabels(+deferred put-back)/cutKeys executed symbolically with scripted deleter stubs: the key/label incidence bits, repeated labelling, label argument order and multiplicity, an ErrNotFound answer, the position of a failing Delete call (in either of two deleters), map iteration order (2 permutations) are solver variables the code branches on; every index/slice bound and explicit panic is an obligation. After a nil return every labelled key was passed to every deleter of its name exactly once, no other key was, count = removed entries; on failure the deleter's error is returned and a retry after recovery removes every labelled key. A second harness uses the real ShardedMap/SyncMap/ShardedMapOf Delete as deleter.",
@@ -72,9 +72,9 @@ P["C17"]=dict(level="model_checking",
  bounds="<=4 sequential calls, <=3 callbacks, clock in [2^60,2^62]",
  outside="more than 4 calls",
  assumptions=[],
- quick=dict(harnesses=["verifH_C17_Seq3"], jobs=1, workers=8, l2=["verifL_C17_2:l2"], l2_shards=2,
+ quick=dict(harnesses=["verifH_C17_Seq3","verifH_C17_Seq3_int:int"], jobs=2, workers=8, l2=["verifL_C17_2:l2"], l2_shards=2,
    bounds="3 sequential calls; 2 concurrent calls (all schedules), 2 callbacks"),
- thorough=dict(harnesses=["verifH_C17_Seq4"], jobs=1, workers=14, l2=["verifL_C17_2:l2","verifL_C17_3:l2"], l2_shards=2, l2_timeout=300,
+ thorough=dict(harnesses=["verifH_C17_Seq4","verifH_C17_Seq3_int:int"], jobs=2, workers=14, l2=["verifL_C17_2:l2","verifL_C17_3:l2"], l2_shards=2, l2_timeout=300,
    bounds="4 sequential calls; 2 and 3 concurrent calls (all schedules), 2 callbacks"))
 
 P["C18"]=dict(level="other",
@@ -141,12 +141,12 @@ P["C16"]=dict(level="model_checking",
 
 P["C08"]=dict(level="model_checking",
  explanation="Linearizability is decided per configuration by the solver over all schedules: two threads run real backend operations (Read, Write, Delete, ExpireAll, DeleteAll; thorough: thread A runs two of Read/Write/Delete in program order against one operation of thread B) on one key of a shared ShardedMap, SyncMap or ShardedMapOf[int]; each thread is explored in event mode from the go/ssa of the real methods (shard RWMutex Lock/RLock regions, Go map and sync.Map accesses, entry fields are events), the automata are composed with a symbolic scheduler, and at quiescence the oracle asserts that the tuple (result of every operation, final presence, final value, final dated/undated expiry) equals that of SOME sequential order of the operations on a 3-field reference register that respects program order. Because both operations overlap in every explored schedule, real-time precedence only constrains program order inside a thread, which the oracle respects. The Walk harness runs Walk against Read/Write/Delete of another key in the same or another shard: the untouched entry is visited exactly once, the other key at most once and only with a value that was stored, the returned count equals the number of callbacks.",
- bounds="2 threads; 2 operations (quick) or 2+1 operations (thorough) on one key; Walk harness: 2 keys (same shard / different shards), one concurrent point operation; clock frozen; one pre-stored entry or none; UnlimitedTTL config, no jitter",
- outside="more than 2 goroutines or 3 operations; LRU/LFU counter bookkeeping and eviction/cleanup cycles as concurrent batch operations (cleanup is raced in C16 only); hash-colliding keys (same 64-bit hash); Walk against ExpireAll/DeleteAll",
+ bounds="2 threads; 2 operations (quick) or 2+1 operations (thorough) on one key; pre-stored entry absent / never expiring / already expired (the *_stale compositions, with and without LFU usage counters; a Read then reports the stale value and its expiry through ErrWithExpiredItem, read from the error after Read returned, as Failover does); Walk harness: 2 keys (same shard / different shards), one concurrent point operation; clock frozen; one pre-stored entry or none; UnlimitedTTL config, no jitter",
+ outside="more than 2 goroutines or 3 operations; an entry whose expiry equals the frozen clock reading may be reported as a hit or as expired (both accepted); LRU counters; eviction/cleanup cycles as concurrent batch operations (cleanup is raced in C16 only); hash-colliding keys (same 64-bit hash); Walk against ExpireAll/DeleteAll",
  assumptions=["sync.Map operations (Load, Store, LoadAndDelete, LoadOrStore, Delete, Range step) are atomic per call; Range visits the keys present when each step executes","blocks are formed by Lipton reduction over the lockset facts recomputed on every run","sequential consistency (race freedom of these accesses is the subject of C16)"],
  technique="event automata from go/ssa + bounded model checking of the composition with a symbolic scheduler (partial-order SMT encoding); linearizability oracle = disjunction over sequential orders of a reference register evaluated by the solver",
- quick=dict(harnesses=[], l2=["verifL_Lin2_ShardedMap:l2","verifL_Lin2_SyncMap:l2","verifL_Lin2_ShardedMapOf:l2","verifL_LinWalk_ShardedMap:l2","verifL_LinWalk_SyncMap:l2","verifL_LinWalk_ShardedMapOf:l2"], l2_jobs=3, l2_par=16, l2_timeout=120),
- thorough=dict(harnesses=[], l2=["verifL_Lin2_ShardedMap:l2","verifL_Lin2_SyncMap:l2","verifL_Lin2_ShardedMapOf:l2","verifL_LinWalk_ShardedMap:l2","verifL_LinWalk_SyncMap:l2","verifL_LinWalk_ShardedMapOf:l2","verifL_Lin3_ShardedMap:l2","verifL_Lin3_SyncMap:l2","verifL_Lin3_ShardedMapOf:l2"], l2_jobs=3, l2_par=16, l2_timeout=300))
+ quick=dict(harnesses=[], l2=["verifL_Lin2_ShardedMap:l2","verifL_Lin2_SyncMap:l2","verifL_Lin2_ShardedMapOf:l2","verifL_Lin2_ShardedMap_stale:l2","verifL_Lin2_SyncMap_stale:l2","verifL_Lin2_ShardedMapOf_stale:l2","verifL_LinWalk_ShardedMap:l2","verifL_LinWalk_SyncMap:l2","verifL_LinWalk_ShardedMapOf:l2"], l2_jobs=3, l2_par=16, l2_timeout=120),
+ thorough=dict(harnesses=[], l2=["verifL_Lin2_ShardedMap:l2","verifL_Lin2_SyncMap:l2","verifL_Lin2_ShardedMapOf:l2","verifL_Lin2_ShardedMap_stale:l2","verifL_Lin2_SyncMap_stale:l2","verifL_Lin2_ShardedMapOf_stale:l2","verifL_LinWalk_ShardedMap:l2","verifL_LinWalk_SyncMap:l2","verifL_LinWalk_ShardedMapOf:l2","verifL_Lin3_ShardedMap:l2","verifL_Lin3_SyncMap:l2","verifL_Lin3_ShardedMapOf:l2"], l2_jobs=3, l2_par=16, l2_timeout=300))
 
 P["C14"]=dict(level="other",
  explanation="The transfer half of the property is decided on the real HTTPTransfer.Export handler, HTTPTransfer.Import and importCache, together with the real Dump/Restore of ShardedMap and SyncMap: an exporter and an importer HTTPTransfer each register an arbitrary subset of three cache names; every exporter cache holds an arbitrary subset of two keys with symbolic non-zero values and symbolic expiry; the importer's Transport is a harness RoundTripper that runs the exporter's real handler in process (with the exporter's own types hash installed while it runs) and hands its status and body back as the response. Importer and exporter types hashes are arbitrary 64-bit values (equal, or assumed different). For every path the solver decides: Import returns nil; a cache whose name the exporter knows and whose hash matches ends up with exactly the exporter's entries of that name (keys, values, expiry, count); with a different hash or an unknown name the importer's cache stays empty; the exporter's caches are unchanged. The *_Faults harnesses let RoundTrip fail, or the body break, for one cache name: that cache then holds only exporter entries (possibly none) and the others are imported as usual.",
